@@ -1,5 +1,18 @@
 #!/bin/sh
-# Build the whole framework offline from files on disk: Lean models, proofs, compiled model driver.
+# Build the framework offline from files on disk: the compiled model driver and the proof modules of every
+# claimed property (harness/enabled.txt).  Groups still under construction are not built here.
 set -e
-cd "$(dirname "$0")/lean"
-lake build Model Proofs Props Driver driver
+cd "$(dirname "$0")"
+MODS=$(/venv/bin/python - <<'PY'
+import sys
+sys.path.insert(0, "harness")
+from registry import REGISTRY
+mods = []
+for r in REGISTRY.values():
+    m = r["module"]
+    mods += [m] if isinstance(m, str) else list(m)
+print(" ".join(sorted(set(mods))))
+PY
+)
+cd lean
+lake build driver $MODS
